@@ -471,6 +471,16 @@ struct D
 			Val* mv = mAt(p);
 			if (mv->t != M_ARRAY || mv->a->empty()) break;
 			int n = (int)mv->a->size(), i = c.rng.below(n), cnt = c.rng.range(1, n - i);
+			if (c.rng.chance(0.15)) {
+				// a range that is not inside the array (e.g. the -1 of a failed search) removes nothing
+				int w = (int)c.rng.below(5);
+				int bi = w == 0 ? -1 : w == 1 ? n : w == 2 ? n + c.rng.range(1, 5) : w == 3 ? -c.rng.range(2, 9) : i;
+				int bn = w == 4 ? n - i + c.rng.range(1, 4) : c.rng.range(1, 3);
+				c.op(vf::fmt("%s.removeAt(%d,%d) [outside an array of %d]", p.str().c_str(), bi, bn, n));
+				vAt(p)->removeAt(bi, bn);
+				c.count("removeAt.outside-the-array");
+				break;
+			}
 			c.op(vf::fmt("%s.removeAt(%d,%d)", p.str().c_str(), i, cnt));
 			vAt(p)->removeAt(i, cnt);
 			mv->a->erase(mv->a->begin() + i, mv->a->begin() + i + cnt);
